@@ -8,7 +8,7 @@ from ..terms import A, C, F, V, L, NIL, call, conj, TRUE, CUT, show_program, sho
 
 ID = 'C04'
 LEVEL = 'model_checking'
-RULE = ('(a) two engines, generator level: every ordered pair of actor scripts from a menu of 17 (create engine, retractall / retract of predicates the engine does not know yet, load '
+RULE = ('(a) two engines, generator level: every ordered pair of actor scripts from a menu of 17 (+3 scripts that register ONE shared function object - inferred, with an explicit arity, as unbound and as bound method - paired with each other and with the registering scripts) (create engine, retractall / retract of predicates the engine does not know yet, load '
         'script with overwrite on/off, assert_fact, register_function, clear, atom, start/next/close of a query or a '
         'retract) x ALL merge orders of their steps (with disjoint vocabularies and, for scripts that clear or intern atoms, with the same atom names on both engines); (b) one engine: every pair (and every triple from a subset) of '
         'side-effect-free queries over disjoint variables (recursion, cut, if-then-else, negation, \\=, once, findall, '
@@ -53,7 +53,29 @@ MENU = [
     [('rstart', 'q'), ('next',), ('retractall', 'q'), ('assert', 'q', 'r3'), ('assert', 'p', 'r4')],
     [('assert', 'p', 'tom'), ('askatom', 'p', 'tom'), ('askatom', 'p', 'tom'), ('askatom', 'p', 'tom')],
     [('atom', 'tom'), ('assert', 'p', 'tom'), ('clear',), ('atom', 'tom'), ('clear',)],
+    # ONE Python function object (resp. a function and its bound method) registered on several engines
+    # in different ways: what an engine calls it by is that engine's own business
+    [('regshared', 'explicit-1'), ('count', 'sh', 1), ('count', 'sh', 2)],
+    [('regshared', 'inferred'), ('count', 'sh', 1), ('count', 'sh', 2), ('clear',), ('regshared', 'inferred'), ('count', 'sh', 2)],
+    [('regshared', 'unbound-method'), ('count', 'sh', 2), ('count', 'sh', 3), ('regshared', 'bound-method'), ('count', 'sh', 2)],
 ]
+
+
+SHARED_FROM = 17
+
+
+def SHARED(arg1, arg2=None):
+    for _ in impl.engine.unify(arg1, 'shared'):
+        yield False
+
+
+class SharedLib:
+    def sh(self, arg1, arg2=None):
+        for _ in impl.engine.unify(arg1, 'shared'):
+            yield False
+
+
+SHARED_LIB = SharedLib()
 
 
 class Actor:
@@ -92,6 +114,21 @@ class Actor:
                 for _ in impl.engine.unify(arg1, marker):
                     yield False
             yp.register_function(op[1], f)
+        elif k == 'regshared':
+            if op[1] == 'explicit-1':
+                self.yp.register_function('sh', SHARED, arity=1)
+            elif op[1] == 'inferred':
+                self.yp.register_function('sh', SHARED)
+            elif op[1] == 'unbound-method':
+                self.yp.register_function('sh', SharedLib.sh)
+            else:
+                self.yp.register_function('sh', SHARED_LIB.sh)
+        elif k == 'count':
+            try:
+                n = len(list(self.yp.query(op[1], [self.yp.variable() for _ in range(op[2])])))
+            except TypeError as e:
+                n = 'TypeError'
+            self.log.append(('answers', op[1], op[2], n))
         elif k == 'askatom':
             # a ground query built from a freshly looked-up atom
             n = len(list(self.yp.query(op[1], [self.yp.atom('%s_%s' % (op[2], tag))])))
@@ -311,6 +348,10 @@ def _run_shard(spec):
             for i2, s2 in enumerate(MENU):
                 idx += 1
                 if idx % n != k:
+                    continue
+                if (i1 >= SHARED_FROM) != (i2 >= SHARED_FROM) and min(i1, i2) not in (4, 11):
+                    # the scripts about one shared function object are paired with each other and with
+                    # the two scripts that register a function of their own
                     continue
                 try:
                     for tag, i, s in (('A', i1, s1), ('B', i2, s2)):
